@@ -10,6 +10,7 @@ import (
 	"hash/fnv"
 	"math/rand/v2"
 	"os"
+	"regexp"
 	"runtime"
 	"runtime/debug"
 	"sort"
@@ -172,6 +173,18 @@ func (r *Rec) stallDump() {
 					cur = fmt.Sprintf("case %d (no Mark since it started) %s", lastCaseIdx.Load(), cur)
 				}
 				os.WriteFile(r.curFile, []byte(cur), 0o644) // the case that did not finish (Mark writes it only when heavy)
+			}
+			if key, what := deadlockIn(string(buf[:n])); key != "" {
+				// every goroutine is blocked and some of them on a mutex: nothing can wake them any more.
+				// This is hard evidence on its own (no second strike needed).
+				dump := string(buf[:n])
+				if len(dump) > 120000 {
+					dump = dump[:120000]
+				}
+				r.mu.Lock()
+				cur := r.cur
+				r.mu.Unlock()
+				r.Violation(key, what, map[string]any{"current_case": fmt.Sprintf("case %d %s", lastCaseIdx.Load(), cur), "stacks": dump})
 			}
 			if os.Getenv("VERIF_STALL_EXIT") != "" {
 				// give up on the shard now instead of waiting for the driver's watchdog; the driver
@@ -338,4 +351,65 @@ func (r *Rec) Close() {
 	if r.curFile != "" {
 		os.Remove(r.curFile)
 	}
+}
+
+var goroutineHdr = regexp.MustCompile(`^goroutine (\d+) \[([^\],]+)(?:, (\d+) minutes)?([^\]]*)\]:$`)
+
+// deadlockIn decides from a dump of ALL goroutines whether the process is deadlocked: no goroutine other
+// than the one that took the dump is running, runnable, in a system call, waiting for I/O or sleeping on
+// real time, and at least one has been waiting for a sync.Mutex / sync.RWMutex for two minutes or longer
+// (inside a synctest bubble virtual time cannot advance while a goroutine is blocked on a mutex, so timers
+// cannot fire either). It returns a key naming the gobgp functions that wait for the locks, or "".
+func deadlockIn(dump string) (key, what string) {
+	var waiters []string
+	for _, g := range strings.Split(dump, "\n\n") {
+		lines := strings.Split(strings.TrimSpace(g), "\n")
+		if len(lines) == 0 {
+			continue
+		}
+		m := goroutineHdr.FindStringSubmatch(lines[0])
+		if m == nil {
+			continue
+		}
+		state, minutes, rest := m[2], m[3], m[4]
+		if strings.Contains(g, "vlib.(*Rec).stallDump") {
+			continue
+		}
+		switch {
+		case strings.HasPrefix(state, "sync.Mutex") || strings.HasPrefix(state, "sync.RWMutex"):
+			if n, _ := strconv.Atoi(minutes); n < 2 {
+				return "", ""
+			}
+			fn := "unknown"
+			for i := 1; i+1 < len(lines); i += 2 {
+				if strings.HasPrefix(lines[i], "github.com/osrg/gobgp/v4/") && !strings.Contains(lines[i+1], "zz_verif_") && !strings.Contains(lines[i], "/internal/verif/") {
+					fn = lines[i]
+					if j := strings.LastIndex(fn, "("); j > 0 {
+						fn = fn[:j]
+					}
+					fn = fn[strings.LastIndex(fn, "/")+1:]
+					break
+				}
+			}
+			waiters = append(waiters, fn)
+		case strings.HasPrefix(state, "chan "), strings.HasPrefix(state, "select"), strings.HasPrefix(state, "sync."),
+			strings.HasPrefix(state, "synctest."), strings.HasPrefix(state, "semacquire"):
+			// blocked on other goroutines
+		case strings.HasPrefix(state, "sleep") && strings.Contains(rest, "synctest bubble"):
+			// sleeping on virtual time, which cannot advance
+		default:
+			return "", "" // running, runnable, syscall, IO wait, real sleep, ...: something may still happen
+		}
+	}
+	if len(waiters) == 0 {
+		return "", ""
+	}
+	sort.Strings(waiters)
+	uniq := waiters[:1]
+	for _, w := range waiters[1:] {
+		if w != uniq[len(uniq)-1] {
+			uniq = append(uniq, w)
+		}
+	}
+	return "deadlock:" + strings.Join(uniq, "|"), fmt.Sprintf("every goroutine is blocked and %d of them have been waiting for a mutex for minutes, in %s (all stacks in the witness)", len(waiters), strings.Join(uniq, ", "))
 }
